@@ -247,8 +247,10 @@ theorem F9.handleMq (g : Gw) (p : MqPkt) : F9 0 g (g.handleMq p) := by
     · exact F9.refl g
   · exact F9.snSend g _ _
   · split
-    · exact F9.refl g
-    · exact F9.snSend g _ _
+    · exact F9.of_eq rfl rfl rfl
+    · split
+      · exact F9.refl g
+      · exact F9.snSend g _ _
   · exact F9.handleBrokerPublish g _ _ _ _ _ _
   · split
     · split
@@ -272,7 +274,7 @@ theorem F9.handleEvent (g : Gw) (ev : Event) : F9 (connectDatagram ev) g (g.hand
   · split
     · rename_i hd p hdec
       simp only [connectDatagram, hdec]
-      exact F9.handleSn g p
+      exact (F9.handleSn g p).after (F9.keepBrokerAlive _)
     · exact (F9.fail g _).mono (Nat.zero_le _)
   · exact F9.handleMq g _
   · exact F9.fail g _
